@@ -350,7 +350,7 @@ Definition submit (s : state) (cs : list creq) (os : list oreq) : state * (sendo
   let '(ls2, oo) := send_requests XOpen ls1 os in
   (mkState (trading s) ls2 (record_opens (record_cancels (insts s) (so_sent co)) (so_sent oo)), (co, oo)).
 
-Definition inst_rest (x : inst) := (i_ex x, i_base x, i_quote x, i_pos x, i_last x).
+Definition inst_rest (x : inst) := (i_ex x, i_base x, i_quote x, i_pos x, i_data x).
 
 Lemma map_updN_inv : forall A B (g : A -> B) (f : A -> A) (l : list A) n,
   (forall x, g (f x) = g x) -> map g (updN l n f) = map g l.
@@ -546,12 +546,20 @@ Proof.
   destruct (N.eqb_spec n i); [subst|reflexivity]. destruct (nthN l i); reflexivity.
 Qed.
 
+Lemma has_inst_fold_updN : forall A (k : A -> N) (f : A -> inst -> inst) (l : list A) (is_ : list inst) i,
+  has_inst (fold_left (fun acc p => updN acc (k p) (f p)) l is_) i = has_inst is_ i.
+Proof.
+  induction l as [|p t IH]; intros is_ i; [reflexivity|]. cbn [fold_left]. rewrite IH. apply has_inst_updN.
+Qed.
+
 Lemma update_state_has_inst : forall s ev i,
   has_inst (insts (fst (update_state s ev))) i = has_inst (insts s) i.
 Proof.
-  intros s ev i. destruct ev; cbn; try reflexivity; try apply has_inst_updN.
-  destruct (nthN (insts s) i0) as [x|]; [|reflexivity].
-  destruct (trade_pos (i_pos x) i0 sd q). cbn. apply has_inst_updN.
+  intros s ev j. destruct ev as [|c|b|o sn|l|k ok|i sd q| |i t p|i t b| |]; cbn; try reflexivity; try apply has_inst_updN.
+  - apply (has_inst_fold_updN _ (fun p => k_inst (o_key (fst p)))
+             (fun p x => with_orders x (snapshot_orders (i_orders x) (fst p) (snd p)))).
+  - destruct (nthN (insts s) i) as [x|]; [|reflexivity].
+    destruct (trade_pos (i_pos x) i sd q). cbn. apply has_inst_updN.
 Qed.
 
 Lemma update_state_no_reports : forall s ev o,
@@ -615,7 +623,7 @@ Proof.
   assert (forall ev', (forall c, ev' <> EvCommand c) ->
           pre_step cs s ev' = (fst (update_state s ev'), None, snd (update_state s ev'))) as Hnc.
   { intros ev' H. destruct ev'; try reflexivity. exfalso. apply (H c). reflexivity. }
-  destruct ev as [|c| | | | | | |];
+  destruct ev as [|c| | | | | | | | | |];
     try (rewrite Hnc by (intros; discriminate); cbn [act_sent];
          split; [intros e; rewrite update_state_links; reflexivity|];
          split; [intros e; rewrite update_state_links; unfold to_ex; cbn; rewrite app_nil_r; reflexivity|];
@@ -698,7 +706,7 @@ Proof.
              marked (ord (insts (fst (update_state s ev))))
                     (match act with Some a => so_sent (action_cancels a) | None => [] end)
                     (match act with Some a => so_sent (action_opens a) | None => [] end) i c)) as Hpre.
-  { destruct ev as [|c| | | | | | |];
+  { destruct ev as [|c| | | | | | | | | |];
       try (cbn [pre_step]; split; [reflexivity|]; split; [intros ii; apply update_state_has_inst|intros _ ii cc; reflexivity]).
     cbn [pre_step update_state fst]. pose proof (action_spec cs s c) as H. cbn zeta in H.
     destruct H as (_ & _ & _ & _ & _ & Hrest & Hhas & Hmk). repeat split; auto. }
@@ -1315,17 +1323,31 @@ Lemma inst_wf_snapshot : forall idx x o sn,
 Proof.
   intros idx x o sn H Hi. apply inst_wf_parts in H. destruct H as (S & K & P).
   apply inst_wf_parts. cbn [with_orders i_orders i_pos]. unfold snapshot_orders.
-  destruct (oget (i_orders x) (k_cid (o_key o))) as [cur|] eqn:Hg; destruct sn as [mt|].
+  assert (Hm : sorted_keys (i_orders x) = true /\ keys_ok idx (i_orders x) = true /\
+               match i_pos x with Some p => N.eqb (p_inst p) idx | None => true end = true) by auto.
+  assert (Hrem : sorted_keys (orem (k_cid (o_key o)) (i_orders x)) = true /\
+                 keys_ok idx (orem (k_cid (o_key o)) (i_orders x)) = true /\
+                 match i_pos x with Some p => N.eqb (p_inst p) idx | None => true end = true)
+    by (split; [apply sorted_orem; exact S|split; [apply keys_ok_orem; exact K|exact P]]).
+  assert (Hins : forall o' : order, k_cid (o_key o') = k_cid (o_key o) -> k_inst (o_key o') = idx ->
+                 sorted_keys (oins (k_cid (o_key o)) o' (i_orders x)) = true /\
+                 keys_ok idx (oins (k_cid (o_key o)) o' (i_orders x)) = true /\
+                 match i_pos x with Some p => N.eqb (p_inst p) idx | None => true end = true)
+    by (intros o' Hc' Hi'; split; [apply sorted_oins; exact S|split; [apply keys_ok_oins; auto|exact P]]).
+  destruct (oget (i_orders x) (k_cid (o_key o))) as [cur|] eqn:Hg.
   - destruct (keys_ok_get _ _ _ _ S K Hg) as [Hc Hi'].
-    destruct (match o_st cur with OIF => true | OOpen cm => Z.leb (m_time cm) (m_time mt)
-              | CIF None => true | CIF (Some cm) => Z.leb (m_time cm) (m_time mt) end); [|auto].
-    destruct (Z.eqb (remaining (o_qty o) mt) 0).
-    + split; [apply sorted_orem; exact S|]. split; [apply keys_ok_orem; exact K|exact P].
-    + split; [apply sorted_oins; exact S|]. split; [|exact P]. apply keys_ok_oins; auto.
-  - split; [apply sorted_orem; exact S|]. split; [apply keys_ok_orem; exact K|exact P].
-  - destruct (Z.eqb (remaining (o_qty o) mt) 0); [auto|].
-    split; [apply sorted_oins; exact S|]. split; [|exact P]. apply keys_ok_oins; auto.
-  - auto.
+    destruct sn as [mt| | |u].
+    + destruct (match o_st cur with OIF => true | OOpen cm => Z.leb (m_time cm) (m_time mt)
+                | CIF None => true | CIF (Some cm) => Z.leb (m_time cm) (m_time mt) end); [|exact Hm].
+      destruct (Z.eqb (remaining (o_qty o) mt) 0); [exact Hrem|]. apply Hins; assumption.
+    + exact Hrem.
+    + exact Hm.
+    + destruct (o_st cur) as [|cm|cm]; [apply Hins; assumption|apply Hins; assumption|exact Hm].
+  - destruct sn as [mt| | |u].
+    + destruct (Z.eqb (remaining (o_qty o) mt) 0); [exact Hm|]. apply Hins; [reflexivity|exact Hi].
+    + exact Hm.
+    + apply Hins; [reflexivity|exact Hi].
+    + apply Hins; [reflexivity|exact Hi].
 Qed.
 
 Lemma inst_wf_cancel_response : forall idx x c ok,
@@ -1353,11 +1375,24 @@ Proof.
   destruct (Z.eqb (Z.abs q) (p_qty p)); cbn [fst]; [reflexivity|apply N.eqb_refl].
 Qed.
 
+Lemma insts_ok_snapshots : forall (l : list (order * snap)) (is_ : list inst),
+  (forall i x, nthN is_ i = Some x -> inst_wf i x = true) ->
+  forall i x, nthN (fold_left (fun acc p =>
+                      updN acc (k_inst (o_key (fst p)))
+                        (fun y => with_orders y (snapshot_orders (i_orders y) (fst p) (snd p)))) l is_) i = Some x ->
+              inst_wf i x = true.
+Proof.
+  induction l as [|p t IH]; intros is_ H; [exact H|]. cbn [fold_left]. apply IH.
+  apply insts_ok_updN; [exact H|]. intros y Hn. apply inst_wf_snapshot; [apply H; exact Hn|reflexivity].
+Qed.
+
 Lemma state_wf_update_state : forall s ev, state_wf s = true -> state_wf (fst (update_state s ev)) = true.
 Proof.
   intros s ev H. rewrite state_wf_iff in H.
-  destruct ev; cbn [update_state fst]; try (apply state_wf_iff; exact H); apply state_wf_iff; cbn [insts set_insts set_trading].
+  destruct ev as [|c|b|o sn|l|k ok|i sd q| |i t p|i t b| |]; cbn [update_state fst];
+    try (apply state_wf_iff; exact H); apply state_wf_iff; cbn [insts set_insts set_trading].
   - apply insts_ok_updN; [exact H|]. intros x Hn. apply inst_wf_snapshot; [apply H; exact Hn|reflexivity].
+  - apply insts_ok_snapshots. exact H.
   - apply insts_ok_updN; [exact H|]. intros x Hn. apply inst_wf_cancel_response. apply H. exact Hn.
   - destruct (nthN (insts s) i) as [x|] eqn:Hn; [|exact H].
     pose proof (trade_pos_ok (i_pos x) i sd q) as Ht.
@@ -1365,6 +1400,8 @@ Proof.
     apply insts_ok_updN; [exact H|]. intros y Hy. rewrite Hn in Hy. inversion Hy; subst y.
     specialize (H _ _ Hn). apply inst_wf_parts in H. destruct H as (S & K & P).
     apply inst_wf_parts. cbn [with_pos i_orders i_pos]. auto.
+  - apply insts_ok_updN; [exact H|]. intros x Hn. specialize (H _ _ Hn).
+    apply inst_wf_parts in H. apply inst_wf_parts. exact H.
   - apply insts_ok_updN; [exact H|]. intros x Hn. specialize (H _ _ Hn).
     apply inst_wf_parts in H. apply inst_wf_parts. exact H.
 Qed.
